@@ -418,8 +418,16 @@ fn configure(sc: &mut Scanner, params: &Value, symbols: &Value) {
     }
 }
 
-/// Run one job on `sc`; `rng` (threads only) injects yields inside callbacks / fetches.
-fn run_job(sc: &Scanner, job: &Value, input: &[u8], mut rng: Option<Rng>) -> Value {
+/// Run one job on `sc`; a panic of the scan is a result of the job ({"panic": msg}), never swallowed.
+fn run_job(sc: &Scanner, job: &Value, input: &[u8], rng: Option<Rng>) -> Value {
+    match std::panic::catch_unwind(std::panic::AssertUnwindSafe(|| run_job_inner(sc, job, input, rng))) {
+        Ok(v) => v,
+        Err(e) => json!({"panic": bvh::panic_message(&*e)}),
+    }
+}
+
+/// `rng` (threads only) injects yields inside callbacks / fetches.
+fn run_job_inner(sc: &Scanner, job: &Value, input: &[u8], mut rng: Option<Rng>) -> Value {
     match job["api"].as_str().unwrap_or("list") {
         "list" => {
             let (err, r) = match sc.scan_mem(input) {
